@@ -190,6 +190,7 @@ class RecoveryPeer:
         d = self.rng.choice(modes)
         n = self.rng.randint(1, 5)
         pick = self.rng.random()
+        pick2 = (pick * 7919.0) % 1.0  # derived, so that recorded peer histories keep replaying
         if d == "inject":
             cands = sorted(
                 (s for s in head.state.actions if s.name not in ("STOP", "EMPTY")),
@@ -200,7 +201,12 @@ class RecoveryPeer:
             else:
                 sym = cands[int(pick * len(cands)) % len(cands)]
                 self.injected += 1
-                head.token_ahead = Token(sym, "", head.position, length=0)
+                # like the repository's own tests: the injected token may carry the text
+                # that "should" have been there (value), but it occupies no input (length 0)
+                value = ""
+                if pick2 < 0.6:
+                    value = getattr(sym.recognizer, "value", "") or ""
+                head.token_ahead = Token(sym, value, head.position, length=0)
                 self.log.append(["inject", head.position, sym.name])
                 return True
         if d == "giveup":
